@@ -874,6 +874,10 @@ class _ModelEval:
                 continue
             if isinstance(st, ast.AugAssign):
                 if isinstance(st.target, ast.Name):
+                    cur = env.get(st.target.id, OPAQUE)
+                    if cur[0] == "mono" and cur[1] != 0:
+                        fail(st, "in-place operation on the loaded array (not the same as rebinding: the array is "
+                                 "read-only and may be shared)")
                     env[st.target.id] = self.ev(ast.BinOp(left=ast.Name(id=st.target.id, ctx=ast.Load()), op=st.op,
                                                           right=st.value), env)
                     continue
